@@ -264,8 +264,8 @@ func (b *builder) fields(out *Msg, d *ir.Message, keyBase string, chain []string
 		if fl.CastType != "" && IsDurationCast(fl.CastType, b.c) {
 			a.TF = TDuration
 		}
-		if fl.Kind == "int64" && fl.CastType == "" && false {
-			_ = a
+		if fl.StdDurationOnInt {
+			a.TF = TDuration
 		}
 		switch fl.Kind {
 		case ir.KMessage:
